@@ -467,7 +467,8 @@ func drive(id, tier string) int {
 	if p.StallSeconds > 0 {
 		stall = time.Duration(p.StallSeconds) * time.Second
 	}
-	stalled := make(chan struct{}, 1)
+	stalled := make(chan int, 1)
+	stalledWorker := -1
 	stopPoll := make(chan struct{})
 	defer close(stopPoll)
 	go func() {
@@ -497,7 +498,7 @@ func drive(id, tier string) int {
 						last[i], since[i] = v, time.Now()
 					} else if time.Since(since[i]) > stall {
 						select {
-						case stalled <- struct{}{}:
+						case stalled <- i:
 						default:
 						}
 						return
@@ -509,7 +510,7 @@ func drive(id, tier string) int {
 	for i := 0; i < n; i++ {
 		select {
 		case ws[i].err = <-ws[i].done:
-		case <-stalled:
+		case stalledWorker = <-stalled:
 			deadline = time.After(0)
 			i--
 		case <-deadline:
@@ -553,6 +554,11 @@ func drive(id, tier string) int {
 	}
 	for i := 0; i < n; i++ {
 		st := ws[i]
+		if st.timedOut && stalledWorker >= 0 && i != stalledWorker {
+			// killed together with the stalled worker: its remaining cases were not run
+			inconclusive = append(inconclusive, fmt.Sprintf("worker %d was stopped at case %d because worker %d stalled; its remaining cases were not run", i, readCrumb(i), stalledWorker))
+			continue
+		}
 		if st.timedOut {
 			idx := readCrumb(i)
 			// Hang protocol: re-run the case alone three times with a generous limit
